@@ -82,6 +82,16 @@ ceil(2N/3) of the set then in force. -/
 theorem fires_exactly_when_quorum_reached (evs : List (Addr × List Addr)) : ledgerRun [] evs = quorumSpec [] evs :=
   ledgerRun_eq_spec [] [] evs (fun _ => Iff.rfl)
 
+/-- Over every history of governance transactions (all methods, all pool changes in between) in which the request is
+not withdrawn or replaced: the approvals committed on one ledger entry (method, request) apply the action at exactly
+the approvals at which the consensus-set entries among everybody who approved since it last took effect reach
+ceil(2N/3) of the set then in force, counted from the approvers already stored in the entry. -/
+theorem takes_effect_exactly_at_over_histories (H : Bytes → Bytes) (k : Bytes) (s : State) (ops : List Op)
+    (hnc : NoClearOn H k s ops) :
+    (approvalsOn H k s ops).map (·.2) = quorumSpec (ledgerOf s k) ((approvalsOn H k s ops).map (·.1)) := by
+  rw [approvalsOn_eq_ledgerRun H k s ops hnc]
+  exact ledgerRun_eq_spec _ _ _ (fun _ => Iff.rfl)
+
 /-- Approvals for a different action or request, and every other transaction, do not touch a ledger entry. -/
 theorem other_transactions_dont_count (H : Bytes → Bytes) (s : State) (op : Op) (k : Bytes)
     (hk : ledgerKeyOf H s op ≠ some k) : ledgerOf (step H s op) k = ledgerOf s k := ledger_frame H s op k hk
@@ -111,6 +121,22 @@ theorem source_call_sites_are_the_modelled_methods :
     Poly.Generated.GovKeys.ccsCalls.map (fun r => r.2.2) = approvalMethods ∧
     Poly.Generated.GovKeys.clears.map (fun r => (r.2.1, r.2.2)) =
       [("UnRegisterCandidate", ["approveCandidate"]), ("UpdateSideChain", ["approveUpdateSideChain"])] := by decide
+
+/-- BlackNode requests (the input is the concatenation of the listed key strings, without separator): lists of key
+strings of one common length (all canonical serializations of keys of one curve have the same length) have different
+ledger keys unless they are the same list or the hash collides. For key strings of different lengths the
+concatenation is not proved unambiguous. -/
+theorem black_requests_separate (H : Bytes → Bytes) (n : Nat) (hn : 0 < n) (pks1 pks2 : List String)
+    (h1 : ∀ pk ∈ pks1, (strBytes pk).length = n) (h2 : ∀ pk ∈ pks2, (strBytes pk).length = n)
+    (hk : ledgerKey H "blackNode" (pks1.flatMap strBytes) = ledgerKey H "blackNode" (pks2.flatMap strBytes)) :
+    pks1.map strBytes = pks2.map strBytes ∨ LedgerCollision H := by
+  rcases ledger_keys_separate H "blackNode" "blackNode" _ _ (by decide) (by decide) hk with ⟨_, hi⟩ | hc
+  · left
+    rw [List.flatMap_def, List.flatMap_def] at hi
+    apply flatten_inj_of_length n hn _ _ _ _ hi
+    · intro x hx; obtain ⟨pk, hpk, rfl⟩ := List.mem_map.1 hx; exact h1 pk hpk
+    · intro x hx; obtain ⟨pk, hpk, rfl⟩ := List.mem_map.1 hx; exact h2 pk hpk
+  · exact Or.inr hc
 
 /-- Requests identified by a 64-bit number (chain ids, relayer / state-validator request numbers) have different ledger
 keys for different numbers or different methods, unless the hash collides. -/
